@@ -3,4 +3,4 @@
 # in a scratch worktree (tools/mutcheck.py); prints one line per seed.  4 at a time.
 cd /verif
 ids="$@"; [ -z "$ids" ] && ids=$(ls seeded)
-echo $ids | tr ' ' '\n' | xargs -P 4 -I{} sh -c 'p=$(echo {} | cut -d- -f1 | cut -c1-3); echo "{}: $(python3 tools/mutcheck.py seeded/{}/patch.diff $p 2>&1 | grep -E "^C[0-9]+ rc=" | head -1)"'
+echo $ids | tr ' ' '\n' | xargs -P 3 -I{} sh -c 'p=$(echo {} | cut -d- -f1 | cut -c1-3); echo "{}: $(python3 tools/mutcheck.py seeded/{}/patch.diff $p 2>&1 | grep -E "^C[0-9]+ rc=" | head -1)"'
